@@ -23,6 +23,10 @@
 //!               `Bitvector::bin_op` computes them) is evaluated as well and reported separately (`class: nonbool`),
 //!               it is not counted as a disagreement.
 //!   reference   `wf` (well-sizedness as P-Code demands per operation) is written from the property statement C12.
+//!   history     on the tree before /repo commit e127fe6 this twin reported ONE class of disagreement in 59 million trees:
+//!               `1 == a - b` rewritten to `a != b` (and `1 != a - b` to `a == b`), also when the `1 == ..` shape only arises
+//!               after a rewrite of a child or of the parent (seeded/findings/C10-one-eq-sub.json; the three fixed cases below).
+//!               `VERIF_C10_DUMP=file` appends every disagreement, shrunk, as a JSON line; `VERIF_C10_ROUNDS=n` sets the number of trees.
 use crate::util::{hex, mask, mk, unhex, val, Rng};
 use cwe_checker_lib::intermediate_representation::*;
 use serde_json::{json, Value};
